@@ -14,7 +14,7 @@ loop of harness/vloop.py and its observed trace is checked against the model's b
 import sys
 import threading
 
-from .. import tlc, graph, common, sched
+from .. import tlc, graph, common, sched, servers
 from . import c06_asgi
 
 WSGI_INV = ["NoStuck", "ClosedOnce", "NoLeak", "Delivered", "RaisedIsReported"]
@@ -329,6 +329,12 @@ def replay_wsgi(ctx, g):
             if bad:
                 ctx.violation(case, "call returns; generator cleaned up exactly once; no thread left; delivery in order",
                               run.observe(), bad[0], {"failed_clauses": bad, "module": "SseWsgi"})
+                if problem and "outside any control point" in problem:
+                    # a thread that keeps running for ten seconds without reaching queue, future or producer: a busy loop. Every further
+                    # schedule would wait for it again - three of these are a verdict
+                    ctx.runaway = getattr(ctx, "runaway", 0) + 1
+                    if ctx.runaway >= 3:
+                        raise servers.Livelock("WSGI event stream: " + problem + " (in %d schedules; the remaining ones were not replayed)" % ctx.runaway)
             # the same schedule with every pool worker busy elsewhere: a relay that has not started yet never will
             if ok and exp["rpc"] == "queued":
                 run2 = WsgiRun(st0["n"], st0["raiseAt"], st0["cleanupRaises"])
